@@ -60,8 +60,10 @@ def main():
         props = sys.argv[sys.argv.index("--props") + 1].split(",")
     if "--tier" in sys.argv:
         tier = sys.argv[sys.argv.index("--tier") + 1]
-    scratch = "/tmp/seed_%s_%d" % (sid.replace("/", "_"), os.getpid())
-    subprocess.check_call(["rsync", "-a", "--exclude", "target", "--exclude", ".git", "/repo/", scratch + "/"])
+    # a fixed scratch path per slot keeps the cargo target dir of the scratch build warm
+    slot = os.environ.get("SEED_SLOT", "")
+    scratch = ("/tmp/seed_slot_%s" % slot) if slot else "/tmp/seed_%s_%d" % (sid.replace("/", "_"), os.getpid())
+    subprocess.check_call(["rsync", "-a", "--delete", "--exclude", "target", "--exclude", ".git", "/repo/", scratch + "/"])
     try:
         subprocess.check_call(["patch", "-p1", "-s", "-d", scratch, "-i", os.path.join(d, "patch.diff")])
         env = dict(os.environ, VERIF_REPO=scratch, VERIF_TIER=tier)
@@ -80,10 +82,11 @@ def main():
         print("CAUGHT" if caught else "MISSED", sid)
         return 0 if caught else 3
     finally:
-        shutil.rmtree(scratch, ignore_errors=True)
-        import hashlib
-        tag = hashlib.md5(scratch.encode()).hexdigest()[:8]
-        shutil.rmtree(os.path.join(ROOT, ".build", "alt_" + tag), ignore_errors=True)
+        if not slot:
+            shutil.rmtree(scratch, ignore_errors=True)
+            import hashlib
+            tag = hashlib.md5(scratch.encode()).hexdigest()[:8]
+            shutil.rmtree(os.path.join(ROOT, ".build", "alt_" + tag), ignore_errors=True)
         # evidence files were rewritten by the scratch run: restore the committed ones
         subprocess.run(["git", "checkout", "--", "evidence"], cwd=ROOT)
 
